@@ -5,7 +5,7 @@ Invalid, named deviations), bounded instance specs/MC_C02.tla, trace specificati
 specs/Trace_C02.tla.
 
 spec -> code: TLC builds argument lists by actions (a bottom-up stack machine, so BFS enumerates
-    every list inside the bounds exactly once) in six configurations - V: one argument, nested
+    every list inside the bounds exactly once) in eight configurations - V: one argument, nested
     literals; A: up to three arguments, shallow values; R: the rich leaf alphabet (strings holding
     syntax characters / quotes / `%}`, translations, nested {{ }} {% %} {# #} strings, filter
     chains with arguments, dotted lookups); I: exactly one documented-invalid construct; N / M: the
@@ -1424,6 +1424,87 @@ def replay(path: str) -> int:
     return 2
 
 
+# ---- selftest probes on the Python type of a spread operand: mapping -> keywords / entries, any other
+# iterable -> positionals / items.  Faithful copies of the library functions with one type test narrowed
+# (variant None: the unchanged behaviour).
+def probe_top_spread(variant: Optional[str]):
+    import django_components.util.template_tag as ttag
+    from collections.abc import Iterable, Mapping
+
+    def resolve_params(tag, params, context):
+        out = []
+        for p in params:
+            v = p.value.resolve(context)
+            if not p.value.spread:
+                out.append(ttag.TagParam(key=p.key, value=v))
+                continue
+            if p.key:
+                raise ValueError(f"Cannot spread a value onto a key: {p.key}")
+            if variant == "dict-only":            # every mapping that is no dict is iterated: its keys become positionals
+                is_map = isinstance(v, dict)
+            elif variant == "list-or-mapping":    # whatever is no list / tuple is taken for a mapping
+                is_map = isinstance(v, Mapping) or not isinstance(v, (list, tuple))
+            else:
+                is_map = isinstance(v, Mapping)
+            if is_map:
+                out.extend(ttag.TagParam(key=k, value=x) for k, x in v.items())
+            elif isinstance(v, Iterable):
+                out.extend(ttag.TagParam(key=None, value=x) for x in v)
+            else:
+                raise ValueError(f"Cannot spread non-iterable value: '{p.value.serialize()}' resolved to {v}")
+        if tag == "html_attrs":
+            out = ttag.merge_repeated_kwargs(out)
+        return ttag.process_aggregate_kwargs(out)
+    return resolve_params
+
+
+def probe_struct_spread(variant: Optional[str]):
+    import django_components.util.tag_parser as tp
+    from django.template import TemplateSyntaxError
+
+    def resolve(self, context):
+        self.compile()
+        if self.type == "simple":
+            value = self.entries[0]
+            if not isinstance(value, tp.TagValue):
+                raise TemplateSyntaxError("Malformed tag: simple value is not a TagValue")
+            return value.resolve(context)
+        if self.type == "list":
+            out: List[Any] = []
+            for entry in self.entries:
+                v = entry.resolve(context)
+                if isinstance(entry, tp.TagValueStruct) and entry.spread:
+                    if not entry.type == "list":
+                        raise TemplateSyntaxError("Malformed tag: cannot spread non-list value into a list")
+                    out.extend(v)
+                elif isinstance(entry, tp.TagValue) and entry.is_spread:
+                    if variant == "list-only" and not isinstance(v, list):
+                        out.append(v)             # "not a list: a single item"
+                    else:
+                        out.extend(v)
+                else:
+                    out.append(v)
+            return out
+        res: Dict[Any, Any] = {}
+        pair: List[Any] = []
+        for entry in self.entries:
+            v = entry.resolve(context)
+            if (isinstance(entry, tp.TagValueStruct) and entry.spread) or (isinstance(entry, tp.TagValue) and entry.is_spread):
+                if pair:
+                    raise TemplateSyntaxError("Malformed dict: spread operator cannot be used on the position of a dict value")
+                if variant == "dict-only" and not isinstance(v, dict):
+                    res.update(dict.fromkeys(v))  # "not a dict: an iterable of keys"
+                else:
+                    res.update(v)
+            else:
+                pair.append(v)
+            if len(pair) == 2:
+                res[pair[0]] = pair[1]
+                pair = []
+        return res
+    return resolve
+
+
 # ------------------------------------------------------------------ selftest
 def selftest(tier: str) -> int:
     """In-process mutation probes (monkeypatched library functions; /repo is never touched)."""
@@ -1666,54 +1747,6 @@ def selftest(tier: str) -> int:
             out.append(p)
         return out
 
-    # ---- the Python type of a spread operand: mapping -> keywords / entries, other iterable -> positionals / items
-    def top_spread(variant):
-        def resolve_params(tag, params, context):
-            out = []
-            for p in params:
-                v = p.value.resolve(context)
-                if not p.value.spread:
-                    out.append(ttag.TagParam(key=p.key, value=v))
-                elif isinstance(v, dict) or (variant == "list-or-mapping" and not isinstance(v, (list, tuple))):
-                    out.extend(ttag.TagParam(key=k, value=x) for k, x in v.items())
-                else:       # "dict-only": every mapping that is no dict is iterated (its keys become positionals)
-                    out.extend(ttag.TagParam(key=None, value=x) for x in v)
-            if tag == "html_attrs":
-                out = ttag.merge_repeated_kwargs(out)
-            return ttag.process_aggregate_kwargs(out)
-        return resolve_params
-
-    def struct_spread(variant):
-        def resolve(self, context):
-            # only a list is spliced into a list literal / only a dict into a dict literal; another iterable
-            # / mapping is converted "defensively" in a way that loses what it holds
-            if self.type == "simple":
-                return orig_resolve(self, context)
-            self.compile()
-            spread = [(isinstance(e, tp.TagValueStruct) and e.spread) or (isinstance(e, tp.TagValue) and e.is_spread)
-                      for e in self.entries]
-            vals = [e.resolve(context) for e in self.entries]
-            if self.type == "list":
-                out: List[Any] = []
-                for sp, v in zip(spread, vals):
-                    if sp and (variant != "list-only" or isinstance(v, list)):
-                        out.extend(v)
-                    else:
-                        out.append(v)
-                return out
-            res: Dict[Any, Any] = {}
-            pair: List[Any] = []
-            for sp, v in zip(spread, vals):
-                if sp:
-                    res.update(v if variant != "dict-only" or isinstance(v, dict) else dict.fromkeys(v))
-                else:
-                    pair.append(v)
-                    if len(pair) == 2:
-                        res[pair[0]] = pair[1]
-                        pair = []
-            return res
-        return resolve
-
     # ---- the place and the moment of the evaluation: loaded libraries, repeated renders
     orig_dyn_init = dexpr.DynamicFilterExpression.__init__
 
@@ -1765,10 +1798,10 @@ def selftest(tier: str) -> int:
         return self._vf_memo
 
     probes = [
-        ("top-level-spread-only-dict-gives-kwargs", many((dnode, "resolve_params", top_spread("dict-only")))),
-        ("top-level-spread-only-list-tuple-give-args", many((dnode, "resolve_params", top_spread("list-or-mapping")))),
-        ("list-literal-spread-only-splices-lists", many((tp.TagValueStruct, "resolve", struct_spread("list-only")))),
-        ("dict-literal-spread-only-merges-dicts", many((tp.TagValueStruct, "resolve", struct_spread("dict-only")))),
+        ("top-level-spread-only-dict-gives-kwargs", many((dnode, "resolve_params", probe_top_spread("dict-only")))),
+        ("top-level-spread-only-list-tuple-give-args", many((dnode, "resolve_params", probe_top_spread("list-or-mapping")))),
+        ("list-literal-spread-only-splices-lists", many((tp.TagValueStruct, "resolve", probe_struct_spread("list-only")))),
+        ("dict-literal-spread-only-merges-dicts", many((tp.TagValueStruct, "resolve", probe_struct_spread("dict-only")))),
         ("nested-string-parser-from-engine-defaults", many((dexpr.DynamicFilterExpression, "__init__", dyn_init("engine-default")))),
         ("nested-string-parser-forgets-loaded-tags", many((dexpr.DynamicFilterExpression, "__init__", dyn_init("filters-only")))),
         ("constant-head-value-memoised", many((tp.TagValue, "resolve", constant_head_memoised))),
